@@ -21,7 +21,7 @@ ASSUMPTIONS = ['reference model vworld.expected_tests written from the '
                'statement; str(test) of the running interpreter',
                'decorator-skipped tests produce no fact and are compared in '
                'the listing only']
-FLOORS = {'seq_runs': 100, 'list_runs': 100, 'par_runs': 40,
+FLOORS = {'list_runs_with_j': 20, 'seq_runs': 100, 'list_runs': 100, 'par_runs': 40,
           'tests_judged': 1500, 'proper_subset_cases': 60,
           'order_compared_layers': 150, 'resumed_child_cases': 10,
           'repeat_cases': 20}
@@ -167,7 +167,13 @@ def run_case(case):
                for e in ws.events):
             C('resumed_child_cases')
         # (b) listing
-        wl = common.run_world(spec, plan, opts, extra_argv=['--list-tests'],
+        # (a third of the listings are asked for together with -j N: the
+        # parent of a parallel run lists, it spawns nothing)
+        lopts = opts
+        if rng.random() < 0.33:
+            lopts = dict(opts, processes=rng.randint(2, 4))
+            C('list_runs_with_j')
+        wl = common.run_world(spec, plan, lopts, extra_argv=['--list-tests'],
                               root=root)
         C('list_runs')
         if wl.raised is not None:
@@ -181,6 +187,8 @@ def run_case(case):
             got = {}
             dup = False
             for lname, tl in listing:
+                if lname.endswith('.EmptyLayer') and not tl:
+                    continue    # the fake first layer of a -j N parent
                 if lname in got:
                     dup = True
                 got.setdefault(lname, [])
